@@ -544,3 +544,61 @@ def rule_scratch_reset(ctx, rule='R05.10'):
                 ctx.report(rule, '%s:gravity_cs:%s' % (fname, m), 'src/gravity.c:%s %s' % (ln, fname),
                            'the compensation term .%s of r->gravity_cs is read here, but no assignment of a constant to it precedes the read in this function: the buffer is classified as scratch (not persisted) because every force evaluation starts from zero' % m)
     ctx.covered(rule, 'compensated-summation scratch buffer: every member read is reset earlier in the same function', n, floor=3)
+
+
+def rule_scratch_conditions(ctx, rule='R05.11'):
+    """R05.11: members classified `scratch` (work buffers and their allocation counters) are not persisted. A restored
+    simulation starts with them empty, so a condition that reads one may only guard what re-creates the scratch state:
+    (re)allocations and writes to scratch members. A write to a persisted member under such a condition (raising a
+    recalculation flag because a work array had to be allocated) makes the restored run differ from the running one."""
+    import glob, os
+    from .. import core
+    from . import c04
+    scratch = {k for k, v in NOT_PERSISTED.items() if v[0] == 'scratch'}
+    notp = set(NOT_PERSISTED)
+
+    def rel(p_):
+        return p_[2:] if p_ and p_.startswith('r.') else None
+    n = 0
+    samples = []
+    for path in sorted(glob.glob(os.path.join(core.REPO, 'src', '*.c'))):
+        cfile = os.path.basename(path)
+        if cfile in ('output.c', 'input.c'):
+            continue
+        try:
+            tu = cfront.load_tu(cfile)
+        except Exception:
+            continue
+        for fname in sorted(tu.funcs):
+            fn = tu.func(fname)
+            if cfront.body(fn) is None:
+                continue
+            for ifs in walk(cfront.body(fn)):
+                if ifs.get('kind') not in ('IfStmt', 'WhileStmt'):
+                    continue
+                # scalar scratch members (allocation counters); elements of work arrays are written earlier in the same step
+                reads = {rel(c04._access_path(m)) for m in walk(ifs['inner'][0]) if m.get('kind') == 'MemberExpr' and '*' not in qtype(m) and '[' not in qtype(m)}
+                reads = {x for x in reads if x in scratch}
+                if not reads:
+                    continue
+                n += 1
+                for x in walk(ifs['inner'][1]):
+                    if not is_assign(x):
+                        continue
+                    tgt = rel(c04._access_path(x['inner'][0]))
+                    if tgt is None:
+                        continue
+                    base = tgt
+                    if any(base == k_ or base.startswith(k_ + '.') for k_ in notp):
+                        continue
+                    rhs = strip(x['inner'][1], casts=True)
+                    if rhs.get('kind') == 'CallExpr' and callee_name(rhs) in ('realloc', 'malloc', 'calloc'):
+                        continue
+                    if '*' in qtype(strip(x['inner'][0])):
+                        continue
+                    ctx.report(rule, '%s:%s:%s' % (fname, sorted(reads)[0], tgt), 'src/%s:%s %s' % (cfile, line_of(x), fname),
+                               'r->%s is persisted, but it is assigned under a condition that reads the unpersisted scratch member r->%s (%s): a restored simulation, whose scratch state is empty, takes this branch where the running one does not'
+                               % (tgt, sorted(reads)[0], NOT_PERSISTED[sorted(reads)[0]][1]))
+                if len(samples) < 5:
+                    samples.append('src/%s:%s %s reads %s' % (cfile, line_of(ifs), fname, sorted(reads)))
+    ctx.covered(rule, 'conditions on unpersisted scratch members guard only (re)allocation and scratch state', n, floor=5, samples=samples)
